@@ -87,9 +87,9 @@ PROPS = {
  "C12": P("C12", tie="Iota.Tie.Pow",
    rule="ops: pow2.toint, pow2.suff (sufficientTrailingZeros and targetHash incl. the overflow guard), pow2.check (hook-exported checkStateTrits on constructed planes: lanes whose hash integer is exactly the target hash, "
         "one above, one below, the largest with s / s-1 trailing zeros, random with >= s-1 zeros, random; at lane 0, 63, random; all-fail and all-candidate planes; sprinkled invalid (0,0) encodings), pow2.statetoint, pow.score, "
-        "pow.mined v2 (nonces returned by Mine with 1..16 workers re-scored by the Lean pipeline), pow2.nopassover (single worker: every earlier nonce re-scored)",
+        "pow.mined v2 (nonces returned by Mine with 1..16 workers re-scored by the Lean pipeline: the expected reply is ok=true; also series of Mine calls on ONE long-lived Worker with the same target and message lengths 0..6000 going up and down), pow2.nopassover (single worker: every earlier nonce re-scored); pow2.toint / pow2.statetoint / pow2.suff are answered a second time by the GENERATED code (gen.pow2.*)",
    assumptions=["iota.go curl/bct computes the lanes' Curl-P-81 hashes (external)", "len(data)+8 times target fits 64 bits (the property's quantifier)"],
-   trusted_base=["Lean BLAKE2b-256 / b1t6 / Curl-P-81 pipeline in the driver", "math/big modelled on Nat"]),
+   trusted_base=["Lean BLAKE2b-256 / b1t6 / Curl-P-81 pipeline in the driver", "math/big modelled on Nat / Int (stage 14: SetUint64, Mul, Add, Quo by their documented meaning)"]),
  "C02": P("C02", tie="Iota.Tie.Slip10",
    rule="ops: slip10.derive (private key, chain code, serialized public key, fingerprint; the harness also derives step by step and requires the same key), slip10.pubderive, hash.hmac512, hash.hash160. Seeds of length 0..64 x "
         "{secp256k1, P-256, ed25519} x random paths (length 0..6, mixed hardened); undefined derivations (non-hardened on ed25519 private and public keys, hardened child of a public key); pluggable curves whose validity predicate "
